@@ -175,6 +175,107 @@ class FsConsumer(Consumer):
                 return
 
 
+HIST_MC = """---- MODULE MC_InputHist ----
+EXTENDS InputHist
+ShardDef == [x \\in {} |-> TRUE]
+HReqsDef == {%(reqs)s}
+====
+"""
+HIST_CFG = """CONSTANTS
+  Toggles = {}
+  FixedOn = {}
+  Comps = {}
+  MaxComps = 1
+  Bases = {"dir"}
+  AllowAbs = FALSE
+  Variant = "intended"
+  ShardBits <- ShardDef
+  HLayout = {%(layout)s}
+  HReqs <- HReqsDef
+  HBases = {"dir", "dlink", "dir2"}
+  MaxLen = %(maxlen)d
+  HVariant = "%(variant)s"
+SPECIFICATION HSpec
+INVARIANT StrictReadsSafe
+INVARIANT HistoryIndependent
+%(emit)s
+CHECK_DEADLOCK FALSE
+"""
+HIST_LAYOUT = ["in", "g", "sib", "sec", "lnkf", "lnkd", "lnkx"]
+HIST_REQS = [["in"], ["..", "out", "secret"], ["lnkf"], ["lnk"], ["..", "dir2", "sib"], ["sub", "deep"], ["lnkd", "secret.tex"]]
+
+
+class HistConsumer(Consumer):
+    """one LatexNodes2Text object per history; every read is judged against the model's answer"""
+
+    def feed(self, rec):
+        from pylatexenc.latex2text import LatexNodes2Text
+        hist = rec['hist']
+        self.n += 1
+        root = layout_dir(self.payload['scratch'], HIST_LAYOUT)
+        l2t = LatexNodes2Text()
+        # the initial configuration is the one recorded with the first event (a "set" is applied, a "read" needs it first)
+        cur = None
+        case = dict(layout=HIST_LAYOUT, history=[(h['op'], h['base'], h['strict'], '/'.join(h['req']['comps'])) for h in hist])
+        if sum(1 for h in hist if h['op'] == 'set') >= 1 and sum(1 for h in hist if h['op'] == 'read') >= 2:
+            self.nontrivial += 1
+        self.sample(case, every=4999)
+        for k, h in enumerate(hist):
+            conf = (h['base'], h['strict'])
+            if conf != cur:
+                l2t.set_tex_input_directory(os.path.join(root, 'p', 'q', h['base']), strict_input=h['strict'])
+                cur = conf
+            if h['op'] != 'read':
+                continue
+            fn = '/'.join(h['req']['comps'])
+            via = 'read_input_file' if (self.n + k) % 3 else 'latex_to_text'
+            if via == 'read_input_file':
+                st, val = guarded(l2t.read_input_file, fn)
+            else:
+                st, val = guarded(l2t.latex_to_text, '\\input{%s}' % fn, tolerant_parsing=False)
+            self.counters['calls'] += 1
+            if st != 'ok':
+                self.violation('outcome', dict(case, step=k + 1), detail=dict(status=st, exc=repr(val)), sig=dict(clause='outcome'))
+                return
+            content = val.strip()
+            got = MARK2PATH.get(content) if content else None
+            if content and got is None:
+                self.violation('garbled', dict(case, step=k + 1), detail=dict(content=val[:60]), sig=dict(clause='garbled'))
+                return
+            exp = None if h['res'] == ['NONE'] else h['res']
+            if got == exp:
+                self.counters['same'] += 1
+                continue
+            basepath = ['p', 'q', 'dir'] if h['base'] in ('dir', 'dlink') else ['p', 'q', h['base']]
+            if h['strict'] and got is not None and got[:len(basepath)] != basepath:
+                self.violation('outside', dict(case, step=k + 1, via=via), detail=dict(returned=got, model=h['res']),
+                               sig=dict(clause='outside', mechanism='history'))
+                return
+            if h['strict']:
+                self.violation('history-dependent-read', dict(case, step=k + 1, via=via), detail=dict(returned=got, model=h['res']),
+                               sig=dict(clause='history-dependent-read'))
+                return
+            self.add_drift(dict(case, step=k + 1, via=via), detail=dict(returned=got, model=h['res']))
+
+
+def run_histories(ctx, scratch):
+    quick = ctx.tier == 'quick'
+    reqs = ', '.join('[abs |-> FALSE, comps |-> <<%s>>]' % q(r) for r in HIST_REQS)
+    mc = HIST_MC % dict(reqs=reqs)
+    rc = common.run_tlc('MC_InputHist', HIST_CFG % dict(layout=q(HIST_LAYOUT), maxlen=3, variant='cache_ignores_strict', emit=''),
+                        mc_text=mc, workers=4, timeout=300)
+    ctx.add_tlc(rc, 'control: contents remembered across a change of the strict flag')
+    ctx.control('a content cache that ignores the strict flag violates StrictReadsSafe',
+                rc.violated in ('StrictReadsSafe', 'HistoryIndependent'), str(rc.violated))
+    job = dict(payload=dict(scratch=scratch), main='MC_InputHist', mc=mc,
+               cfg=HIST_CFG % dict(layout=q(HIST_LAYOUT), maxlen=3 if quick else 4, variant='intended', emit='INVARIANT HEmit'),
+               tlc_kw=dict(timeout=1800, workers=1))
+    m = common.run_dispatch(ctx, ('harness.c15', 'HistConsumer'), job, what='InputHist: histories of set_tex_input_directory / read', batch=200)
+    ctx.add_merged(m)
+    ctx.log('histories: %d histories of %d calls on one converter, %d reads, %s' % (
+        m['n'], 3 if quick else 4, m['counters'].get('calls', 0), {k: v for k, v in m['counters'].items() if k in ('same', 'drift')}))
+
+
 def _jobs(scratch, toggles, fixed, comps, maxcomps, bases, allowabs, variant, shard_toggles, timeout, emit=True):
     jobs = []
     free = [t for t in toggles if t not in shard_toggles]
@@ -228,6 +329,7 @@ def run(ctx):
         ctx.add_merged(m3)
         ctx.log('3 components: %d cases; verdicts %s' % (
             m3['n'], {k: v for k, v in m3['counters'].items() if k in ('same', 'drift', 'outside', 'inside-not-read')}))
+        run_histories(ctx, scratch)
     finally:
         shutil.rmtree(scratch, ignore_errors=True)
     ctx.exhaustive = True
@@ -240,6 +342,22 @@ def replay(case):
     scratch = tempfile.mkdtemp(prefix='verif_c15_')
     try:
         from pylatexenc.latex2text import LatexNodes2Text
+        if 'history' in c:
+            root = layout_dir(scratch, c['layout'])
+            l2t = LatexNodes2Text()
+            ok = True
+            for op, b, strict, fn in c['history']:
+                l2t.set_tex_input_directory(os.path.join(root, 'p', 'q', b), strict_input=strict)
+                if op != 'read':
+                    print('set_tex_input_directory(%s, strict_input=%s)' % (b, strict))
+                    continue
+                val = l2t.read_input_file(fn).strip()
+                got = MARK2PATH.get(val)
+                basepath = ['p', 'q', 'dir'] if b in ('dir', 'dlink') else ['p', 'q', b]
+                bad = strict and got is not None and got[:len(basepath)] != basepath
+                print('read_input_file(%r) [base %s, strict %s] -> %s%s' % (fn, b, strict, got, '   OUTSIDE' if bad else ''))
+                ok = ok and not bad
+            return ok
         root = layout_dir(scratch, c['layout'])
         base = os.path.join(root, 'p', 'q', c['base'])
         reqs = c['request']
